@@ -149,7 +149,7 @@ pub fn check(ctx: &Ctx, ws: &mut Workers, c: &ThreadCase, counting: bool, tag: &
             }
             steps.push(Step::Eval { src: prog.clone() });
             let mut case = Case::new(steps);
-            case.timeout_ms = if c.period > 0 { 10_000 * attempt } else { 30_000 * attempt };
+            case.timeout_ms = if c.period > 0 { 6_000 * attempt } else { 30_000 * attempt };
             case.mem_mb = 6000;
             let r = ws.run(&cfg, &case);
             ctx.stats.engine_runs.fetch_add(1, std::sync::atomic::Ordering::Relaxed);
@@ -162,7 +162,7 @@ pub fn check(ctx: &Ctx, ws: &mut Workers, c: &ThreadCase, counting: bool, tag: &
             End::Done => {}
             End::Watchdog => {
                 // the program needs well under a second; 30 s and then 60 s without finishing is a lack of progress
-                return Err(Failure::new(format!("{}:no-progress", tag), format!("{}\nthe program did not finish within the time limit (30 s, with forced collections 10 s) nor, on a second attempt, within twice that", shown)));
+                return Err(Failure::new(format!("{}:no-progress", tag), format!("{}\nthe program did not finish within the time limit (30 s, with forced collections 6 s) nor, on a second attempt, within twice that", shown)));
             }
             End::Oom => {
                 if counting {
